@@ -34,6 +34,17 @@ class LostAnchor(Exception):
     pass
 
 
+LENIENT = {'on': False, 'dropped': []}
+
+
+def _lost(msg):
+    """strict: raise; lenient (degraded mode): record the dropped annotation and go on without it"""
+    if LENIENT['on']:
+        LENIENT['dropped'].append(msg)
+        return True
+    raise LostAnchor(msg)
+
+
 class TemplateError(Exception):
     pass
 
@@ -190,6 +201,16 @@ def strip_comments(text):
     return ''.join(ch if kk != 'm' else ('\n' if ch == '\n' else '') for ch, kk in zip(text, k))
 
 
+# std calls Verus has no specification for, redirected to the shims of prelude/le.rs (DESIGN rewrite rules 4 and 8);
+# applied to every extracted function of every unit, each application logged
+BUILTIN_RW = [
+    (r'\b(u16|u32|u64)::from_le_bytes\(\s*(&?)(\w+)\[(\d+)\.\.(\d+)\]\.try_into\(\)\.internal_err\(WRONG_OFFSET\)\?,?\s*\)', r'shim_le_\1(&\3[..], \4, \5)?', None),
+    (r'\b(u16|u32|u64|u128|f32|f64)::from_le_bytes\(', r'shim_\1_from_le_bytes(', None),
+    (r'\b(u16|u32|u64)::to_le_bytes\(', r'shim_\1_to_le_bytes(', None),
+    (r'\.to_le_bytes\(\)', r'.to_le_bytes_shim()', None),
+]
+
+
 def apply_rewrites(text, rws, log, where, required=True):
     for (pat, repl, n) in rws:
         try:
@@ -197,9 +218,10 @@ def apply_rewrites(text, rws, log, where, required=True):
         except re.error as ex:
             raise TemplateError('bad regex %r: %s' % (pat, ex))
         if required and cnt == 0:
-            raise LostAnchor('rewrite %r does not match in %s' % (pat, where))
+            if _lost('rewrite %r does not match in %s' % (pat, where)):
+                continue
         if n is not None and cnt != n:
-            raise LostAnchor('rewrite %r matched %d times, expected %d in %s' % (pat, cnt, n, where))
+            _lost('rewrite %r matched %d times, expected %d in %s' % (pat, cnt, n, where))
         if cnt:
             log.append({'where': where, 'pattern': pat, 'replacement': repl, 'count': cnt})
         text = new
@@ -339,13 +361,15 @@ def splice_fn(fid, text, sections, opts):
         elif k0 == 'loop':
             _, k, where, hdr = key
             if k >= len(loops):
-                raise LostAnchor('%s: loop %d not found (%d loops)' % (fid, k, len(loops)))
+                if _lost('%s: loop %d not found (%d loops)' % (fid, k, len(loops))):
+                    continue
             kw, p, lb, le = loops[k]
             if hdr is not None and not re.search(hdr, text[p:lb]):
                 # re-synchronise on the header text
                 cand = [i for i, l in enumerate(loops) if re.search(hdr, text[l[1]:l[2]])]
                 if len(cand) != 1:
-                    raise LostAnchor('%s: loop %d header /%s/ lost' % (fid, k, hdr))
+                    if _lost('%s: loop %d header /%s/ lost' % (fid, k, hdr)):
+                        continue
                 kw, p, lb, le = loops[cand[0]]
             if where == 'before':
                 ins.append((stmt_start(text, kind, p, b), '\n' + body + '\n', 0))
@@ -364,7 +388,8 @@ def splice_fn(fid, text, sections, opts):
             occ = [m for m in re.finditer(r'(?<![\w])' + re.escape(callee) + r'\s*(::<[^>]*>)?\s*\(', text[b:e])
                    if kind[b + m.start()] == 'c']
             if n >= len(occ):
-                raise LostAnchor('%s: call %s #%d not found (%d calls)' % (fid, callee, n, len(occ)))
+                if _lost('%s: call %s #%d not found (%d calls)' % (fid, callee, n, len(occ))):
+                    continue
             p = b + occ[n].start()
             if where == 'before':
                 ins.append((stmt_start(text, kind, p, b), '\n' + body + '\n', 0))
@@ -376,7 +401,8 @@ def splice_fn(fid, text, sections, opts):
             _, n, where, rx = key
             occ = [m for m in re.finditer(rx, text[b:e]) if kind[b + m.start()] == 'c']
             if n >= len(occ):
-                raise LostAnchor('%s: statement /%s/ #%d not found (%d)' % (fid, rx, n, len(occ)))
+                if _lost('%s: statement /%s/ #%d not found (%d)' % (fid, rx, n, len(occ))):
+                    continue
             p = b + occ[n].start()
             if where == 'before':
                 ins.append((stmt_start(text, kind, p, b), '\n' + body + '\n', 0))
@@ -395,7 +421,18 @@ def splice_fn(fid, text, sections, opts):
     return out
 
 
-def assemble(template_path, repo):
+def assemble(template_path, repo, vacuity=False, lenient=False):
+    LENIENT['on'] = lenient
+    LENIENT['dropped'] = []
+    try:
+        text, meta = _assemble(template_path, repo, vacuity)
+        meta['dropped_anchors'] = list(LENIENT['dropped'])
+        return text, meta
+    finally:
+        LENIENT['on'] = False
+
+
+def _assemble(template_path, repo, vacuity=False):
     """returns (text, meta). meta: functions[], items[], rewrites[], line ranges"""
     lines = open(template_path).read().split('\n')
     out = []          # list of text chunks
@@ -521,11 +558,24 @@ def assemble(template_path, repo):
             else:
                 fid_out = fid
             text = strip_comments(raw)
+            text = apply_rewrites(text, BUILTIN_RW, meta['rewrites'], fid_out, required=False)
             text = apply_rewrites(text, grws, meta['rewrites'], fid_out, required=False)
             text = apply_rewrites(text, rws, meta['rewrites'], fid_out)
             if opts.get('rename'):
                 text = re.sub(r'\bfn\s+' + re.escape(name) + r'\b', 'fn ' + opts['rename'], text, count=1)
+            if vacuity and 'canary' not in opts:
+                # reachability probe: with every precondition assumed, `false` must NOT be provable at function entry
+                key = ('body_start',)
+                sections[key] = '        proof { assert(false); } // VACUITY-PROBE\n' + sections.get(key, '')
+            ndrop = len(LENIENT['dropped'])
+            text0 = text
             text = splice_fn(fid_out, text, sections, opts)
+            if LENIENT['on'] and len(LENIENT['dropped']) > ndrop:
+                # a hint of this function lost its anchor: proof hints may depend on each other (ghost variables), so ALL hints of the
+                # function are dropped and it is verified against its contract (signature clauses) alone
+                LENIENT['dropped'].append('%s: all proof hints of this function dropped, contract clauses kept' % fid_out)
+                sections = dict((k_, v_) for k_, v_ in sections.items() if k_[0] in ('sig', 'attr'))
+                text = splice_fn(fid_out, text0, sections, opts)
             meta.setdefault('_spliced', {})[fid_out] = (text, rel, src.count('\n', 0, s) + 1, hashlib.sha256(raw.encode()).hexdigest(), name)
             start = cur_line
             emit(text + '\n')
@@ -538,6 +588,36 @@ def assemble(template_path, repo):
             })
             meta['regions'].append({'id': fid_out, 'kind': 'fn', 'start': start, 'end': cur_line - 1,
                                     'canary': 'canary' in opts})
+        elif cmd == 'consts':
+            # //@consts <file> <Owner> : every associated const of the impl blocks of Owner, verbatim (so a newly added const is picked up)
+            a = arg.split()
+            rel, owner = a[0], a[1]
+            src, kind = load(repo, rel)
+            blocks = find_impl_blocks(src, kind, owner)
+            seen = []
+            for m in re.finditer(r'\bconst\s+(\w+)\s*:', src):
+                if kind[m.start()] != 'c' or not any(b < m.start() < e for b, e in blocks):
+                    continue
+                # only direct children of the impl block (brace depth 1 relative to the block)
+                blk = [be for be in blocks if be[0] < m.start() < be[1]][0]
+                depth = 0
+                for k_ in range(blk[0], m.start()):
+                    if kind[k_] == 'c':
+                        depth += 1 if src[k_] == '{' else (-1 if src[k_] == '}' else 0)
+                if depth != 1:
+                    continue
+                seen.append(m.group(1))
+            i += 1
+            for cname in seen:
+                src2, kind2, s2, e2, attrs2 = locate_item(repo, rel, 'const', cname, owner)
+                raw = src2[s2:e2]
+                text = strip_comments(raw)
+                text = apply_rewrites(text, grws, meta['rewrites'], 'const ' + cname, required=False)
+                meta['items'].append({'id': 'const %s::%s' % (owner, cname), 'file': rel, 'line': src2.count('\n', 0, s2) + 1,
+                                      'sha256': hashlib.sha256(raw.encode()).hexdigest(), 'dropped_attrs': attrs2})
+                start = cur_line
+                emit(text + '\n')
+                meta['regions'].append({'id': 'const %s::%s' % (owner, cname), 'kind': 'item', 'start': start, 'end': cur_line - 1})
         elif cmd == 'lemma':
             # //@lemma <name> serves=C02,...   ...verbatim text...   //@endlemma : a spec-level obligation owned by properties
             a = arg.split()
